@@ -5,6 +5,7 @@
   what the differential runs establish.  The provable content is the length law.
 -/
 import PG.Lemmas.WriterInv
+import PG.Lemmas.HashOrder
 namespace PG
 
 /-- the length of every written file equals the length implied by the four section counts -/
@@ -24,5 +25,28 @@ theorem C14_header (recs : List Record) (hs : (Tables.build recs).Small) :
 /-- the output is a function of the mapping bytes alone -/
 theorem C14_function (a b : Bytes) (h : a = b) : Cache.writeBytes a = Cache.writeBytes b := by
   rw [h]
+
+/-! The only sources of run-to-run variation in the writer are its hash-ordered containers.
+    `hash_ops_order_free` (re-checked against the current source on every run) shows the code only
+    applies order-free operations to them; the lemmas below show that under such operations any
+    two internal orders are indistinguishable — which is why the list-based model, with one fixed
+    order, is a faithful model. -/
+
+/-- tie to the source: no hash container is ever iterated -/
+theorem C14_hash_ops_order_free :
+    Generated.hashExtractorOk = true ∧ ∀ op ∈ Generated.hashOps, op.2.2 ∈ orderFreeOps :=
+  hash_ops_order_free
+
+/-- `HashSet::contains` / `insert`'s answer / `HashMap::get` agree for any two internal orders -/
+theorem C14_membership_order_indep {α : Type} [BEq α] [LawfulBEq α] {l₁ l₂ : List α}
+    (h : l₁.Perm l₂) (p₁ p₂ : Nat) (x : α) :
+    l₁.contains x = l₂.contains x ∧
+    (insertNewAt p₁ x l₁).1 = (insertNewAt p₂ x l₂).1 ∧
+    (insertNewAt p₁ x l₁).2.Perm (insertNewAt p₂ x l₂).2 :=
+  ⟨contains_perm h x, insertNew_perm h p₁ p₂ x⟩
+
+theorem C14_lookup_order_indep {α β : Type} [BEq α] [LawfulBEq α] {l₁ l₂ : List (α × β)}
+    (h : l₁.Perm l₂) (nd : (l₁.map Prod.fst).Nodup) (k : α) : l₁.lookup k = l₂.lookup k :=
+  lookup_perm h nd k
 
 end PG
